@@ -109,3 +109,7 @@ pub use crate::util::treadmill::TreadMill;
 pub use crate::policy::compressor::forwarding::verif_hooks as compressor_hooks;
 // C38 (family "policy"): stand-alone MemBalancerTrigger / FixedHeapSizeTrigger drivers.
 pub use crate::util::heap::gc_trigger::verif_hooks as gc_trigger_hooks;
+// Whole-system accessors (C03, C09, C28, C38): space names, page counters, GC kind.
+#[path = "verif_system.rs"]
+mod system;
+pub use system::*;
